@@ -400,6 +400,9 @@ def judge(case, a, chunks, ctx):
         ctx.tab("outcomes", f"{kind}:both_raise")
         ctx.seen((sig, a.ndim, min(nblocks, 3), "raise"), False)
         return None
+    if r_raises and isinstance(r[1], IndexerModified):
+        ctx.tab("outcomes", f"{kind}:INDEXER_MODIFIED")
+        return ("indexer_modified", str(r[1]), f"{kind}:caller_index_array_modified")
     if r_raises:
         ex = r[1]
         ctx.tab("outcomes", f"{kind}:refused:{type(ex).__name__}")
